@@ -672,3 +672,25 @@ V("seed3-repr-array2string", "fault", "C19", P + "polyhedron.py", "vertices={sel
   "vertices={np.array2string(self.vertices, separator=', ', floatmode='unique')}", rule="REPR-2")
 V("seed3-stl-skip-small", "fault", "C20", IO, "                n = np.cross(t[1] - t[0], t[2] - t[1])  # order?\n",
   "                n = np.cross(t[1] - t[0], t[2] - t[1])  # order?\n                if np.allclose(n, 0):\n                    continue\n", rule="CNT-2")
+
+# the prism built by copying the bottom n-gon and overwriting the z column of the copy (benign R9E-5) and its faulty siblings
+_PRISM_OLD = '        vertices = np.concatenate(\n            [_make_ngon(n, z=-h / 2, area=area), _make_ngon(n, z=h / 2, area=area)]\n        )\n        return vertices\n\n'
+def _prism_form(copy, store):
+    return ("        bottom_face = _make_ngon(n, z=-h / 2, area=area)\n        top_face = " + copy + "\n        " + store
+            + "\n        return np.concatenate([bottom_face, top_face])\n\n")
+V("c17-rw-prism-copy-overwrite-z", "rewrite", "C17", F + "common.py", _PRISM_OLD, _prism_form("bottom_face.copy()", "top_face[:, 2] = h / 2"))
+V("c17-rw-prism-npcopy-overwrite-z", "rewrite", "C17", F + "common.py", _PRISM_OLD, _prism_form("np.array(bottom_face)", "top_face[:, -1] = h / 2"))
+V("c17-prism-copy-wrong-height", "fault", "C17", F + "common.py", _PRISM_OLD, _prism_form("bottom_face.copy()", "top_face[:, 2] = h"), rule="UV-1")
+V("c17-prism-alias-overwrite-z", "fault", "C17", F + "common.py", _PRISM_OLD, _prism_form("bottom_face", "top_face[:, 2] = h / 2"), rule="UV-1")
+
+# DOI-1 / LOAD-4 decided on what the factory constructs per DOI (not on the tables' layout)
+V("c17-doi-family-dropped", "fault", "C17", F + "doi_data_repositories.py", "[Family323Plus, Family423, Family523]", "[Family323Plus, Family423]", rule="DOI-1")
+V("c17-doi-family-order", "fault", "C17", F + "doi_data_repositories.py", "[Family323Plus, Family423, Family523]", "[Family423, Family323Plus, Family523]", rule="DOI-1")
+V("c17-doi-wrong-family-for-doi", "fault", "C17", F + "doi_data_repositories.py", '"10.1021/nn204012y": [TruncatedTetrahedronFamily],', '"10.1021/nn204012y": [Family423],', rule="DOI-1")
+V("c17-doi-loop-skips-first", "fault", "C17", F + "doi_data_repositories.py", "for family_type in _DOI_TO_FAMILY[doi]:", "for family_type in _DOI_TO_FAMILY[doi][1:]:", rule="DOI-1", allow_error=True)
+V("c17-rw-doi-comprehension", "rewrite", ["C17", "C18"], F + "doi_data_repositories.py",
+  "        for family_type in _DOI_TO_FAMILY[doi]:\n            families.append(family_type())\n",
+  "        families.extend([family_type() for family_type in _DOI_TO_FAMILY[doi]])\n")
+V("c17-rw-doi-get-default", "rewrite", ["C17", "C18"], F + "doi_data_repositories.py",
+  "    if doi in _DOI_TO_FAMILY:\n        for family_type in _DOI_TO_FAMILY[doi]:\n            families.append(family_type())\n",
+  "    for family_type in _DOI_TO_FAMILY.get(doi, []):\n        families.append(family_type())\n")
